@@ -167,6 +167,24 @@ Proof.
   split; [vm_compute; reflexivity|]. split; [vm_compute; reflexivity|]. split; [vm_compute; reflexivity|]. split; vm_compute; reflexivity.
 Qed.
 
+(* non-vacuity of the lockstep half of [mode_ok]: the same owner A, and a LOCKSTEP receiver (window 0) that gets A's
+   first two rounds: it simulates frames 0 and 1 with A's inputs 0, 5 - only ever confirmed ones - and stalls at
+   frame 2 (third call: nothing of A for frame 2 yet) while still sending its own input for that frame *)
+Definition c01_sysL : list sop := [SRemote 0 0 0; SLocal 1 3; SAdvance; SRemote 0 1 5; SLocal 1 3; SAdvance; SLocal 1 3; SAdvance].
+Example C01_system_demo_lockstep :
+  mode_ok false 0 0 /\
+  exists pB outsB gB,
+    srun_in (fun x => x) (session_start 2 0 false 0 [KRemote 0; KLocal] [[0]] 0) c01_sysL = Ok (pB, outsB) /\
+    exec_outs 0 (game0 0) outsB = Some gB /\ s_current (ps_sync pB) = 2 /\ s_last_confirmed (ps_sync pB) = 1 /\
+    map (fun m => assoc_get m 1) (all_sends outsB) = [Some (mkpi 0 3); Some (mkpi 1 3); Some (mkpi 2 3)] /\
+    map (fun f => gvalL (g_hist gB) f 0) [0; 1] = [0; 5].
+Proof.
+  split; [right; split; [reflexivity|split; [reflexivity|vm_compute; intro X; discriminate X]]|].
+  eexists. eexists. eexists.
+  split; [vm_compute; reflexivity|]. split; [vm_compute; reflexivity|]. split; [vm_compute; reflexivity|].
+  split; [vm_compute; reflexivity|]. split; vm_compute; reflexivity.
+Qed.
+
 (* Remote players in closed form: every confirmed frame f that has been simulated was LAST simulated,
    for every remote player pl, with the f-th input delivered for pl during the run ([remote_vals pl ops]:
    the values of the SRemote pl operations, in order) - nothing lost, duplicated, reordered, altered,
